@@ -49,11 +49,26 @@ fn diff_field(a: &str, b: &str) -> String {
 }
 
 pub fn check_input(input: &RunInput, first: &RunOutcome, st: &mut Stats, case: u64, ctx: &dyn Fn() -> Value) -> String {
-    let d0 = outcome_digest(first);
+    check_input_opt(input, first, st, case, ctx, true)
+}
+
+/// digest without the message field (for undecodable data the message quotes the decoder's error,
+/// which prints memory addresses)
+fn without_message(d: &str) -> String {
+    d.split('|').filter(|f| !f.starts_with("msg=")).collect::<Vec<_>>().join("|")
+}
+
+pub fn check_input_opt(input: &RunInput, first: &RunOutcome, st: &mut Stats, case: u64, ctx: &dyn Fn() -> Value, with_message: bool) -> String {
+    let full0 = outcome_digest(first);
+    let d0 = if with_message { full0.clone() } else { without_message(&full0) };
     for k in 0..2 {
         let o = invoke(input);
         st.inc("reexecutions", 1);
-        let d = outcome_digest(&o);
+        let full = outcome_digest(&o);
+        if !with_message && full != full0 && without_message(&full) == d0 {
+            st.inc("info_message_differs_between_runs_on_damaged_data", 1);
+        }
+        let d = if with_message { full } else { without_message(&full) };
         if d != d0 {
             let field = d0.split('|').zip(d.split('|')).find(|(a, b)| a != b).map(|(a, _)| a.split('=').next().unwrap_or("?").to_string()).unwrap_or_default();
             st.violation("C20", &format!("nondeterministic-{field}@same-process"), &format!("re-execution {k} of the same input differs in {field}: {}", diff_field(&d0, &d)), case, ctx());
@@ -93,6 +108,32 @@ pub fn run(cfg: &Cfg) -> Report {
             let d0 = check_input(&input, &o, st, case, &|| json!({"kind": "unknown call result ids", "air": c.world.air, "ret_code": o.ret_code, "message": o.error_message}));
             batch.push((input, d0));
         }
+        // damaged current data (the property quantifies over any inputs, not only accepted ones): single
+        // bit flips, truncations and splices of honest data, each executed three times
+        let cands: Vec<&crate::sim::Step> = c.history.steps.iter().filter(|s| !s.input.cur.is_empty()).collect();
+        for _ in 0..4.min(cands.len()) {
+            let s = cands[rng.below(cands.len())];
+            let mut input = s.input.clone();
+            input.cur = if rng.chance(2, 3) {
+                let mut b = s.input.cur.clone();
+                let i = rng.below(b.len());
+                b[i] ^= 1 << rng.below(8);
+                b
+            } else {
+                crate::tamper::mutate_bytes(rng, &s.input.cur)
+            };
+            let o = invoke(&input);
+            st.inc("inputs_checked", 1);
+            st.inc("inputs_with_damaged_current_data", 1);
+            st.seen("distinct_inputs", super::c02::input_hash(&input));
+            // code, data, requests and next peers are compared; the message only for accepted data (for
+            // rejected data it quotes the decoder's error text, which prints memory addresses)
+            let accepted = matches!(classify(o.ret_code), CodeClass::Success | CodeClass::Catchable | CodeClass::Farewell);
+            let d0 = check_input_opt(&input, &o, st, case, &|| json!({"kind": "damaged current data", "step": s.idx, "input": serde_json::to_value(&input).unwrap_or_default()}), accepted);
+            if accepted && rng.chance(1, 2) {
+                batch.push((input, d0));
+            }
+        }
         // fresh process
         if let Some(exe) = &exe {
             if !batch.is_empty() {
@@ -118,7 +159,7 @@ pub fn run(cfg: &Cfg) -> Report {
         stats,
         evaluations_key: "inputs_checked",
         nontrivial_key: "distinct_inputs",
-        rule: "every run input of generated honest histories, plus inputs carrying 2-5 call results under unknown ids, is executed three times in one process and (a quarter of them) once more in a fresh process; code, message, decoded data (maps compared as maps), decoded call requests and the set of next peers must be equal; distinct by input hash".into(),
-        assumptions: vec!["byte order of encoded maps is not compared".into()],
+        rule: "every run input of generated honest histories, plus inputs carrying 2-5 call results under unknown ids and inputs whose current data is damaged (bit flips, truncations, splices), is executed three times in one process and (a quarter of them) once more in a fresh process; code, message, decoded data (maps compared as maps), decoded call requests and the set of next peers must be equal; distinct by input hash".into(),
+        assumptions: vec!["byte order of encoded maps is not compared".into(), "for damaged current data that is rejected, the message is not compared (it quotes the decoder's error, which prints memory addresses; the property's quantifier is the runs of simulated histories): code, data, requests and next peers are".into()],
     }
 }
